@@ -172,9 +172,17 @@ AGGS = ['Sum', 'Min', 'Max', 'Avg', 'Count', 'List', 'Set', 'ArgMin', 'ArgMax', 
 # Multi: several aggregates in one head. Their results are per source row / per group records.
 
 
-def gen_table(r):
+STR_VALUES = ['a', 'b', 'ab', 'B', 'z', 'zz', 'y', '10', '9', 'm', 'Mm', 'c', 'ca', 'x y', 'k']
+
+
+def gen_table(r, vtype='int'):
   n = r.choice([1, 2, 3, 4, 5, 6, 8, 10])
-  vs_ = r.sample(range(-8, 60), n)         # globally distinct: ties are excluded by the property
+  if vtype == 'float':
+    vs_ = [x / 4.0 for x in r.sample(range(-32, 240), n)]   # quarters: sums are exact in binary
+  elif vtype == 'str':
+    vs_ = r.sample(STR_VALUES, n)
+  else:
+    vs_ = r.sample(range(-8, 60), n)       # globally distinct: ties are excluded by the property
   # Avg must be exactly representable: keep values integral, compare with tolerance 1e-9
   rows = []
   for i in range(n):
@@ -287,6 +295,8 @@ def agg_rule(agg, src, kk, src2=None):
 def lit(x):
   if isinstance(x, str):
     return json.dumps(x)
+  if isinstance(x, float):
+    return repr(x) if x >= 0 else '(%r)' % x
   if isinstance(x, list):
     return '[' + ', '.join(lit(y) for y in x) + ']'
   if isinstance(x, int) and x < 0:
@@ -304,8 +314,16 @@ def gen_scalars(r, n):
   for _ in range(n):
     f = r.choice(['Range', 'Size', 'Element', 'Subscript', 'Sort', 'ArrayConcat', 'Concat', 'Join',
                   'Split', 'ToString', 'ToInt64', 'Least', 'Greatest', 'Plus', 'Minus', 'Times',
-                  'SizeRange', 'InFilter', 'Cmp', 'Empty', 'Empty', 'Boundary', 'Boundary', 'Compose'])
-    if f == 'Boundary':
+                  'SizeRange', 'InFilter', 'Cmp', 'Empty', 'Empty', 'Boundary', 'Boundary', 'Compose', 'Nested', 'Nested'])
+    if f == 'Nested':
+      a, b, c = r.choice(ints), r.choice(ints), r.choice(ints)
+      form, val = r.choice([
+          ('%s - (%s - %s)', a - (b - c)), ('%s - %s - %s', a - b - c), ('%s * (%s + %s)', a * (b + c)),
+          ('%s * %s + %s', a * b + c), ('%s - %s * %s', a - b * c), ('(%s - %s) * %s', (a - b) * c),
+          ('%s + (%s - %s) * %s' % ('%s', '%s', '%s', lit(2)), a + (b - c) * 2),
+          ('0 - %s - %s + %s', 0 - a - b + c)])
+      cells.append(['Nested', form % (lit(a), lit(b), lit(c)), val])
+    elif f == 'Boundary':
       which = r.choice(['LastElement', 'LastSubscript', 'SortStr', 'InStr', 'EqualLeast', 'EqualGreatest',
                         'RoundTripInt', 'RoundTripStr', 'OneElementSort', 'OneElementJoin', 'NegTimes',
                         'SortDup', 'NumLikeStrings'])
@@ -487,8 +505,8 @@ def make_table(dbpath, rows, index, split=None):
   if os.path.exists(dbpath):
     os.remove(dbpath)
   c = sqlite3.connect(dbpath)
-  c.execute('CREATE TABLE D (k INTEGER, a TEXT, v INTEGER, w INTEGER)')
-  c.execute('CREATE TABLE D2 (k INTEGER, a TEXT, v INTEGER, w INTEGER)')
+  c.execute('CREATE TABLE D (k INTEGER, a TEXT, v, w INTEGER)')
+  c.execute('CREATE TABLE D2 (k INTEGER, a TEXT, v, w INTEGER)')
   for i, row in enumerate(rows):
     c.execute('INSERT INTO %s VALUES (?, ?, ?, ?)' % ('D2' if split is not None and i >= split else 'D'), row)
   if index:
@@ -545,7 +563,7 @@ def run_l2(case, scratch):
         got[row[0]] = decode(row[1])
       if agg in ('List', 'Set'):
         got = {k: (sorted(v) if isinstance(v, list) else v) for k, v in got.items()}
-      if agg == 'Avg':
+      if agg in ('Avg', 'Sum'):
         ok = set(got) == set(want) and all(
             isinstance(got[k], (int, float)) and abs(got[k] - want[k]) < 1e-9 for k in want)
       else:
@@ -573,9 +591,14 @@ def run_l2(case, scratch):
   return vs
 
 
+NUMERIC_ONLY = ('Sum', 'Avg', 'Comb', 'Comb2', 'Multi')
+
+
 def l2_cases(r, tier):
-  rows = gen_table(r)
-  aggs = r.sample(AGGS, r.choice([2, 3, 4]))
+  vtype = r.choice(['int', 'int', 'int', 'float', 'str'])
+  rows = gen_table(r, vtype)
+  pool = [a for a in AGGS if vtype == 'int' or (vtype == 'float' and a != 'Multi') or a not in NUMERIC_ONLY]
+  aggs = r.sample(pool, r.choice([2, 3, 4]))
   kk = r.choice([1, 2, 2, 3, 5])
   scalars = gen_scalars(r, r.choice([0, 4, 8]))
   cases = []
@@ -585,7 +608,7 @@ def l2_cases(r, tier):
     if j == 1:
       o.sort(key=lambda x: x[2])            # ascending by value: best case for the heaps
     elif j == 2:
-      o.sort(key=lambda x: -x[2])           # descending: every arrival replaces
+      o.sort(key=lambda x: x[2], reverse=True)    # descending: every arrival replaces
     else:
       r.shuffle(o)
     # two-body aggregation: both sources non-empty (an empty fact predicate is not a program)
